@@ -49,7 +49,14 @@ Definition fobs_of (l : link) : list float :=
   let r := l_rtt l in
   [r_jitter r; r_prev r; ev (r_avgd r); r_min r; r_min_fast r; r_min_slow r; r_masd r; r_est r].
 
-Record tobs := { tb_pre : lobs; tb_post : lobs; tb_frames : list frame }.
+(** what the monitor needs of a link as it was just before a tick *)
+Record pobs := { p_connected : bool; p_last_recv : option Z; p_timeout : Z;
+                 p_last_meas : Z; p_kinit : bool; p_srtt : float }.
+Definition pobs_of (l : link) : pobs :=
+  {| p_connected := l_connected l; p_last_recv := l_last_recv l; p_timeout := l_timeout l;
+     p_last_meas := r_last_meas (l_rtt l); p_kinit := kinit (r_k (l_rtt l));
+     p_srtt := get_smooth_rtt_ms l |}.
+Record tobs := { tb_pre : pobs; tb_post : lobs; tb_frames : list frame }.
 Record dump := { d_l : lobs; d_k : list float; d_f : list float;
                  d_fastw : list float; d_sloww : list float; d_filt : list float }.
 
@@ -69,7 +76,7 @@ Definition dump_of (l : link) : dump :=
 Definition obs_step (s : state) (o : op) : obs :=
   match o with
   | OTick now ts rc =>
-    BTick (map (fun p => {| tb_pre := lobs_of (fst p); tb_post := lobs_of (snd (snd p));
+    BTick (map (fun p => {| tb_pre := pobs_of (fst p); tb_post := lobs_of (snd (snd p));
                             tb_frames := fst (snd p) |})
                (combine s (tick_links s ts rc now)))
   | OPkt i b now =>
@@ -104,8 +111,12 @@ Definition frame_eqb (a b : frame) : bool :=
   | FLong n x, FLong m y => (n =? m) && zlist_eqb x y
   | _, _ => false
   end.
+Definition pobs_eqb (a b : pobs) : bool :=
+  Bool.eqb (p_connected a) (p_connected b) && ozeqb (p_last_recv a) (p_last_recv b) &&
+  (p_timeout a =? p_timeout b) && (p_last_meas a =? p_last_meas b) &&
+  Bool.eqb (p_kinit a) (p_kinit b) && feqb (p_srtt a) (p_srtt b).
 Definition tobs_eqb (a b : tobs) : bool :=
-  lobs_eqb (tb_pre a) (tb_pre b) && lobs_eqb (tb_post a) (tb_post b) &&
+  pobs_eqb (tb_pre a) (tb_pre b) && lobs_eqb (tb_post a) (tb_post b) &&
   list_eqb frame_eqb (tb_frames a) (tb_frames b).
 Definition dump_eqb (a b : dump) : bool :=
   lobs_eqb (d_l a) (d_l b) && flist_eqb (d_k a) (d_k b) && flist_eqb (d_f a) (d_f b) &&
@@ -141,16 +152,16 @@ Definition mstate := list mlink.
 
 Definition srtt_signed_ok (x : float) : bool := negb (f_is_nan x) && (0 <=? x)%float.
 Definition srtt_finite_ok (x : float) : bool := negb (f_is_inf x).
-Definition lobs_code (o : lobs) : N :=
-  if negb (srtt_signed_ok (o_srtt o)) then 4%N
-  else if negb (srtt_finite_ok (o_srtt o)) then 5%N else 0%N.
+Definition srtt_code (x : float) : N :=
+  if negb (srtt_signed_ok x) then 4%N else if negb (srtt_finite_ok x) then 5%N else 0%N.
+Definition lobs_code (o : lobs) : N := srtt_code (o_srtt o).
 
 Definition first_code (a b : N) : N := if (a =? 0)%N then b else a.
 
 (** "connected and not timed out", from the raw fields read before the tick *)
-Definition live_pre (o : lobs) (now : Z) : bool :=
-  o_connected o &&
-  match o_last_recv o with None => true | Some lr => ssub now lr <? o_timeout o end.
+Definition live_pre (o : pobs) (now : Z) : bool :=
+  p_connected o &&
+  match p_last_recv o with None => true | Some lr => ssub now lr <? p_timeout o end.
 
 Definition frame_is_ka (f : frame) : bool :=
   match f with
@@ -172,9 +183,9 @@ Definition frame_ok (now : Z) (t : tele) (f : frame) : bool :=
     end
   end.
 
-Definition tick_nosample (pre post : lobs) : bool :=
-  ((o_last_meas post =? o_last_meas pre) || (o_last_meas post =? 0)) &&
-  (Bool.eqb (o_kinit post) (o_kinit pre) || negb (o_kinit post)).
+Definition tick_nosample (pre : pobs) (post : lobs) : bool :=
+  ((o_last_meas post =? p_last_meas pre) || (o_last_meas post =? 0)) &&
+  (Bool.eqb (o_kinit post) (p_kinit pre) || negb (o_kinit post)).
 
 Definition mon_tick_link (D bound now : Z) (m : mlink) (tb : tobs) (t : tele) : N * mlink :=
   let pre := tb_pre tb in
@@ -188,7 +199,7 @@ Definition mon_tick_link (D bound now : Z) (m : mlink) (tb : tobs) (t : tele) : 
             end in
   let c2 := if forallb (frame_ok now t) (tb_frames tb) then 0%N else 2%N in
   let c3 := if tick_nosample pre (tb_post tb) then 0%N else 3%N in
-  let c45 := first_code (lobs_code pre) (lobs_code (tb_post tb)) in
+  let c45 := first_code (srtt_code (p_srtt pre)) (lobs_code (tb_post tb)) in
   let seen := existsb frame_is_ka (tb_frames tb) in
   (first_code c1 (first_code c2 (first_code c3 c45)),
    {| m_last := if seen then Some now else m_last m;
@@ -266,11 +277,15 @@ Definition LO := Build_lobs.
 Arguments LO _ _%Z _%Z _%Z _%Z _%Z _%Z _%Z _%Z _ _%Z _%Z _ _%float.
 Definition TE := Build_tele.
 Arguments TE _%Z _%Z _%Z _%float.
+Definition PO := Build_pobs.
+Arguments PO _ _%Z _%Z _%Z _ _%float.
 Definition TB := Build_tobs.
 Definition FL (l : list float) : list float := l.
 Arguments FL _%float.
 Definition DU := Build_dump.
-Definition FB := FBytes.
+(** byte strings cross as (length, one hexadecimal numeral) *)
+Definition BH (len n : Z) : list Z := be_bytes (Z.to_nat len) n.
+Definition FB (len n : Z) : frame := FBytes (BH len n).
 Definition FG := FLong.
 Definition CA := Build_case.
 Arguments OPkt _%nat _%Z _%Z.
